@@ -1,7 +1,127 @@
-/- Driver entry for property C06: one request payload in, one canonical response line out. -/
+/-
+Driver for the heap model (C06).
+payload :  <route> <n> <cls> <i1> <i2> <scalars> <bondFields> <coords> M <mol> [M <mol>]
+   route  = copy | concat | join            (copy = copy constructor = pickle round trip = deepcopy)
+   n      = the allocation counter (every identity of the sources is below it)
+   mol    = <id> <cls> <scalars> <box> <atomsId> <atoms|-> <bondsId> <bonds|-> <arrays|->
+   box    = <id>/<ents>      ents = tokens joined by ',' in prefix form:
+              s.<key>.<value>          a scalar entry
+              c.<key>.<tag>.<id>       opens a nested container … closed by  e
+   atoms  = atom+atom+…      atom = <id>;<fields>;<box>;<parent|->
+   bonds  = bond+bond+…      bond = <id>;<a1>;<a2>;<fields>;<box>;<parent|->
+   arrays = arr+arr+…        arr  = <id>;<data>
+   lists of integers are comma separated, `-` = empty
+response: obs=<canonical observation of the result>#shared=<number of identities the result shares with
+          a source>#below=<0|1>  (all source identities are below n)
+   observation = cls|scalars|ents|atoms|bonds|arrays   with atom = fields/ents/p, bond = e1/e2/fields/ents/p
+-/
 import Molli.Util.Basic
+import Molli.Model.Heap
 namespace Molli.Driver.C06
+open Molli.Util Molli.Model.Heap
 
-def handle (_payload : String) : String := "err:not-implemented"
+def ints? (s : String) : Option (List Int) :=
+  if s == "-" || s == "" then some [] else (s.splitOn ",").mapM (·.toInt?)
+
+def optNat? (s : String) : Option (Option Nat) :=
+  if s == "-" then some none else s.toNat?.map some
+
+partial def parseEntToks : List String → Option (Ents × List String)
+  | [] => some (.nil, [])
+  | "e" :: rest => some (.nil, rest)
+  | tok :: rest =>
+    match tok.splitOn "." with
+    | ["s", k, v] => do
+        let k ← k.toInt?; let v ← v.toInt?
+        let (r, rest') ← parseEntToks rest
+        pure (.scalar k v r, rest')
+    | ["c", k, t, i] => do
+        let k ← k.toInt?; let t ← t.toNat?; let i ← i.toNat?
+        let (inner, rest1) ← parseEntToks rest
+        let (r, rest2) ← parseEntToks rest1
+        pure (.cont k t i inner r, rest2)
+    | _ => none
+
+def parseBox? (s : String) : Option Box :=
+  match s.splitOn "/" with
+  | [i, e] => do
+      let i ← i.toNat?
+      let toks := if e == "" then [] else e.splitOn ","
+      let (ents, rest) ← parseEntToks toks
+      if rest.isEmpty then pure { id := i, ents := ents } else none
+  | _ => none
+
+def parseAtom? (s : String) : Option AtomO :=
+  match s.splitOn ";" with
+  | [i, f, b, p] => do
+      pure { id := (← i.toNat?), fields := (← ints? f), attrib := (← parseBox? b), parent := (← optNat? p) }
+  | _ => none
+
+def parseBond? (s : String) : Option BondO :=
+  match s.splitOn ";" with
+  | [i, a1, a2, f, b, p] => do
+      pure { id := (← i.toNat?), a1 := (← a1.toNat?), a2 := (← a2.toNat?), fields := (← ints? f),
+             attrib := (← parseBox? b), parent := (← optNat? p) }
+  | _ => none
+
+def parseArr? (s : String) : Option Arr :=
+  match s.splitOn ";" with
+  | [i, d] => do pure { id := (← i.toNat?), data := (← ints? d) }
+  | _ => none
+
+def plusList? {α} (f : String → Option α) (s : String) : Option (List α) :=
+  if s == "-" then some [] else (s.splitOn "+").mapM f
+
+def parseMol? : List String → Option MolO
+  | [i, c, sc, box, ai, atoms, bi, bonds, arrs] => do
+      pure { id := (← i.toNat?), cls := (← c.toNat?), scalars := (← ints? sc), attrib := (← parseBox? box),
+             atomsId := (← ai.toNat?), atoms := (← plusList? parseAtom? atoms),
+             bondsId := (← bi.toNat?), bonds := (← plusList? parseBond? bonds),
+             arrays := (← plusList? parseArr? arrs) }
+  | _ => none
+
+def showInts (l : List Int) : String := if l.isEmpty then "-" else ",".intercalate (l.map toString)
+
+def showEntToks : Ents → List String
+  | .nil => []
+  | .scalar k v r => s!"s.{k}.{v}" :: showEntToks r
+  | .cont k t _ inner r => (s!"c.{k}.{t}" :: showEntToks inner) ++ ("e" :: showEntToks r)
+
+def showEnts (e : Ents) : String := ",".intercalate (showEntToks e)
+
+def showObs (o : MolObs) : String :=
+  let atoms := "+".intercalate (o.atoms.map (fun a =>
+    s!"{showInts a.fields}/{showEnts a.attrib}/{if a.parentOk then 1 else 0}"))
+  let bonds := "+".intercalate (o.bonds.map (fun b =>
+    s!"{b.e1}/{b.e2}/{showInts b.fields}/{showEnts b.attrib}/{if b.parentOk then 1 else 0}"))
+  let arrays := "+".intercalate (o.arrays.map showInts)
+  s!"{o.cls}|{showInts o.scalars}|{showEnts o.attrib}|{atoms}|{bonds}|{arrays}"
+
+def splitMols (ws : List String) : List (List String) :=
+  (ws.foldl (fun (acc : List (List String)) w =>
+    if w == "M" then [] :: acc else
+      match acc with
+      | [] => []
+      | cur :: rest => (cur ++ [w]) :: rest) []).reverse
+
+def handle (payload : String) : String :=
+  match words payload with
+  | route :: n :: cls :: i1 :: i2 :: sc :: bf :: co :: rest =>
+    match n.toNat?, cls.toNat?, i1.toNat?, i2.toNat?, ints? sc, ints? bf, ints? co, (splitMols rest).mapM parseMol? with
+    | some n, some cls, some i1, some i2, some sc, some bf, some co, some mols =>
+      let result : Option MolO :=
+        match route, mols with
+        | "copy", [s] => some (deepCopy repaired n s)
+        | "concat", [s1, s2] => some (concat repaired n cls s1 s2)
+        | "join", [s1, s2] => some (join repaired n cls s1 s2 i1 i2 sc bf co)
+        | _, _ => none
+      match result with
+      | none => "err:bad-route"
+      | some r =>
+        let shared := (mols.map (fun s => (sharedIds r s).length)).sum
+        let below := mols.all (belowB n)
+        s!"obs={showObs (observe r)}#shared={shared}#below={if below then 1 else 0}"
+    | _, _, _, _, _, _, _, _ => "err:bad-request"
+  | _ => "err:bad-request"
 
 end Molli.Driver.C06
